@@ -8,7 +8,7 @@ import json, os, random
 import vlib
 from vlib import Infra, Verdict, log
 
-ALPHA = ["@", "Ident", "Foo", "Lit", "(", ")", "[", "]", "{", "}", "|", "?", "*", "+", "!", "~", ":", "="]
+ALPHA = ["@", "Ident", "Foo", "Lit", "(", ")", "[", "]", "{", "}", "|", "?", "*", "+", "!", "~", ":", "=", "Bad"]
 
 
 def gen_valid(rng, depth=3):
@@ -96,7 +96,7 @@ def run(pid, tier, args):
             r = json.load(open(args.replay))
             if r.get("kind") != "tag":
                 raise Infra("replay kind %s: re-run the check" % r.get("kind"))
-            inv = {'"a"': "Lit", "|": "OR"}
+            inv = {'"a"': "Lit", "|": "OR", "'": "Bad", "`": "Bad", '"abc': "Bad", "/*": "Bad", "c": "", "\\": "Bad", "'ab'": "Bad"}
             toks = [inv.get(t, t) for t in r["tag"].split(" ")]
             counts, n = run_lines(vhbin, wd, ["r|%s|%s" % (" ".join(toks), r["class"])], v, pid, "replay")
             return v.finish()
